@@ -54,6 +54,8 @@ func checkC18(c *Check) {
 		"strings.TrimSpace": true, "(*net/http.Request).Cookie": true, "(*net/http.Cookie).String": true,
 		"(net/http.Header).Add": true, "(net/http.Header).Set": true, "builtin.len": true, "builtin.append": true,
 		"(net/http.ResponseWriter).Header": true,
+		// http.SetCookie(w, c): w.Header().Add("Set-Cookie", c.String()) unless the rendering is empty (invalid name)
+		"net/http.SetCookie": true,
 	}
 	for _, fn := range fns {
 		key := p.FuncKey(fn)
@@ -387,6 +389,19 @@ func checkC18(c *Check) {
 				}
 			}
 			okOrder = okOrder && hdr
+		}
+		// or handed to net/http's own SetCookie, which renders the same cookie into the same header
+		for _, ci := range callsNamed(fn, "net/http.SetCookie") {
+			if store == nil {
+				continue
+			}
+			// the cookie passed is the one whose Value was escaped
+			ck := strip(ci.Common().Args[1])
+			if root, _ := addrRoot(strip(store.(*ssa.Store).Addr)); root != nil && root == ck {
+				if ok, _ := mustPrecede(fn, isInstr(store), ci); ok {
+					okOrder = true
+				}
+			}
 		}
 		c.Cond(okE && okOrder, key, p.FuncPos(fn), "cookie.Value = url.QueryEscape(cookie.Value) before it is rendered into Set-Cookie", "the cookie value is not query-escaped before being rendered (bytes that net/http strips from cookie values are lost) — the pair with Cookie()'s QueryUnescape is broken")
 	}
